@@ -49,7 +49,10 @@ D2Forms == { Lit(Call("k1", <<B, D1>>)),
 Model(k1, k2, d1, d2) ==
   [inputs |-> <<"a", "b">>,
    bkms |-> <<[name |-> "k1", ps |-> <<"a", "b">>, form |-> k1, reqs |-> <<>>],
-              [name |-> "k2", ps |-> <<"p">>, form |-> k2, reqs |-> <<"k1">>]>>,
+              [name |-> "k2", ps |-> <<"p">>, form |-> k2, reqs |-> <<"k1">>],
+              \* no parameters, a boxed context whose first entry is named like an input of the model: the entries are the
+              \* model's own business and must not show in the scope of the decision that invokes it
+              [name |-> "k0", ps |-> <<>>, form |-> CtxF(<<En("a", Lit(Hundred)), En("r", Lit(Bin("add", A, One)))>>, None), reqs |-> <<>>]>>,
    decisions |-> <<
      [name |-> "d1", reqIn |-> <<"a">>, reqDec |-> <<>>, reqBkm |-> <<>>, reqSvc |-> <<>>, form |-> d1],
      [name |-> "d2", reqIn |-> <<"a", "b">>, reqDec |-> <<"d1">>, reqBkm |-> <<"k1">>, reqSvc |-> <<>>, form |-> d2],
@@ -61,14 +64,16 @@ Model(k1, k2, d1, d2) ==
      [name |-> "d4", reqIn |-> <<"a", "b">>, reqDec |-> <<>>, reqBkm |-> <<>>, reqSvc |-> <<"s2">>,
         form |-> Inv("s2", <<Bd("b", Lit(A)), Bd("a", Lit(Bin("add", B, One)))>>)],
      [name |-> "d5", reqIn |-> <<"a", "b">>, reqDec |-> <<>>, reqBkm |-> <<>>, reqSvc |-> <<"s1">>,
-        form |-> Inv("s1", <<Bd("a", Lit(B)), Bd("b", Lit(Hundred))>>)]>>,
+        form |-> Inv("s1", <<Bd("a", Lit(B)), Bd("b", Lit(Hundred))>>)],
+     [name |-> "d6", reqIn |-> <<"a", "b">>, reqDec |-> <<>>, reqBkm |-> <<"k0">>, reqSvc |-> <<>>,
+        form |-> Lit([n |-> "list", items |-> <<A, [n |-> "path", id |-> "r", a |-> Call("k0", <<>>)], A, B>>])]>>,
    services |-> <<[name |-> "s1", inData |-> <<"a", "b">>, inDec |-> <<>>, enc |-> <<"d1", "d2">>, out |-> <<"d3">>],
                   [name |-> "s2", inData |-> <<"a", "b">>, inDec |-> <<>>, enc |-> <<>>, out |-> <<"d1", "d2">>],
                   \* several output decisions next to an encapsulated one (which is not part of the result)
                   [name |-> "s3", inData |-> <<"a", "b">>, inDec |-> <<>>, enc |-> <<"d1">>, out |-> <<"d2", "dr">>]>>,
    invocables |-> <<<<"decision", "d1">>, <<"decision", "d2">>, <<"decision", "d3">>, <<"decision", "dr">>,
                     <<"bkm", "k1">>, <<"bkm", "k2">>, <<"service", "s1">>, <<"service", "s2">>,
-                    <<"decision", "d4">>, <<"decision", "d5">>, <<"service", "s3">>>>]
+                    <<"decision", "d4">>, <<"decision", "d5">>, <<"service", "s3">>, <<"decision", "d6">>, <<"bkm", "k0">>>>]
 
 V(m) == [k |-> "num", m |-> m, e |-> 0]
 Inputs == << [k |-> "ctx", ents |-> <<[n |-> "a", v |-> V(2)], [n |-> "b", v |-> V(3)]>>],
